@@ -107,6 +107,52 @@ let wal_cmd (args : string list) : string =
     Printf.sprintf "BLOCK_SIZE=%d HEADER_SIZE=%d ok=%b" (int_of_n wAL_BLOCK_SIZE) (int_of_n wAL_HEADER_SIZE) wal_params_ok
   | _ -> "bad-command"
 
+(* ---------- E2: specification machine ---------- *)
+let e2_state = ref m0
+let bopt tok = if tok = "~" then None else Some (bytes_of_hex tok)
+let show_err = function
+  | EClosed -> "Closed" | EReadOnly -> "ReadOnly" | EWriteOnly -> "WriteOnly" | EEmptyKey -> "EmptyKey"
+  | EConflict -> "Conflict" | ENoSavepoint -> "NoSavepoint" | ENoTxn -> "NoTxn" | EUnsupported -> "Unsupported"
+let show_resp = function
+  | ROk -> "ok"
+  | RErr e -> "err:" ^ show_err e
+  | RVal None -> "val:none"
+  | RVal (Some v) -> "val:" ^ hex_of_bytes v
+  | RCur None -> "cur:invalid"
+  | RCur (Some (k, v)) -> Printf.sprintf "cur:%s=%s" (hex_of_bytes k) (hex_of_bytes v)
+  | RList l -> "list:" ^ String.concat "," (List.map (fun (k, v) -> hex_of_bytes k ^ "=" ^ hex_of_bytes v) l)
+let ni s = nat_of_int (int_of_string s)
+let e2_cmd (args : string list) : string =
+  let run c = let (s, r) = step !e2_state c in e2_state := s; show_resp r in
+  match args with
+  | ["new"] -> e2_state := m0; "ok"
+  | ["open"; _] -> "ok"
+  | ["close"] -> run Reopen
+  | ["reopen"] -> run Reopen
+  | ["begin"; id; m] -> run (Begin (ni id, (match m with "ro" -> RO | "wo" -> WO | _ -> RW)))
+  | ["set"; id; k; v] -> run (Write (ni id, KSet, bytes_of_hex k, Some (bytes_of_hex v), N0))
+  | ["setat"; id; k; v; ts] -> run (Write (ni id, KSet, bytes_of_hex k, Some (bytes_of_hex v), n_of_int (int_of_string ts)))
+  | ["del"; id; k] -> run (Write (ni id, KDel, bytes_of_hex k, None, N0))
+  | ["sdel"; id; k] -> run (Write (ni id, KSoftDel, bytes_of_hex k, None, N0))
+  | ["repl"; id; k; v] -> run (Write (ni id, KReplace, bytes_of_hex k, Some (bytes_of_hex v), N0))
+  | ["get"; id; k] -> run (Get (ni id, bytes_of_hex k))
+  | ["sp"; id] -> run (Savepoint (ni id))
+  | ["rbsp"; id] -> run (RollbackTo (ni id))
+  | ["commit"; id] -> run (Commit (ni id))
+  | ["rollback"; id] -> run (Rollback (ni id))
+  | ["drop"; id] -> run (Rollback (ni id))
+  | ["range"; id; cid; lo; hi] -> run (Range (ni id, ni cid, bopt lo, bopt hi))
+  | ["cur"; cid; "first"] -> run (Cur (ni cid, CFirst))
+  | ["cur"; cid; "last"] -> run (Cur (ni cid, CLast))
+  | ["cur"; cid; "next"] -> run (Cur (ni cid, CNext))
+  | ["cur"; cid; "prev"] -> run (Cur (ni cid, CPrev))
+  | ["cur"; cid; "seek"; k] -> run (Cur (ni cid, CSeek (bytes_of_hex k)))
+  | ["curclose"; cid] -> run (CurClose (ni cid))
+  | ["scan"; id; lo; hi; dir] -> run (Scan (ni id, bopt lo, bopt hi, dir = "b"))
+  | ["rotate"] | ["flush"] | ["flush1"] | ["compact"; _] | ["compactauto"] -> run Physical
+  | ["levels"] | ["snapshots"] -> "info"
+  | _ -> "bad-command"
+
 let () =
   try
     while true do
@@ -116,6 +162,7 @@ let () =
           try
             match String.split_on_char ' ' line with
             | "wal" :: rest -> wal_cmd rest
+            | "e2" :: rest -> e2_cmd rest
             | _ -> "bad-command"
           with
           | Not_found -> "error:not-found"
